@@ -1,13 +1,16 @@
 import GeoVerif.FP.F64
 import GeoVerif.Model.MathF
 import GeoVerif.Gen.NNC
+import GeoVerif.Model.UTMUPS
+import GeoVerif.Model.StrKey
 /-!
 # C13 — the error contract as tables and decidable predicates
 
 * `Entry` / `table`: for every public numeric entry point driven by `harness/C13.cpp`, the **dependence table**
   (one row per input argument, one character per output: `1` = the output depends on that input, so a NaN there must
-  give NaN here; `0` = it does not, so it must stay a valid number; `x` = nothing required: degenerate special cases
-  such as Mercator, free-text outputs), whether the function is documented to validate its arguments, and the inputs
+  give NaN here; `0` = it must stay a valid number; `=` = it does not depend on that input at all, so it must come back
+  *bit-identical* to the value of the NaN-free baseline call (echoed arguments, components computed separately);
+  `x` = nothing required: degenerate special cases such as Mercator, free-text outputs), whether the function is documented to validate its arguments, and the inputs
   whose NaN is rejected with the library's exception.  Hand-written from the headers' documentation and the formulas;
   the driver decides from it, exactly, what a call with a NaN argument must return.
 * constructor validation predicates over the exact binary64 model, as coded / documented.
@@ -31,6 +34,7 @@ structure Report where
   exc : Exc
   written : List Bool     -- per output: differs from its sentinel after the call
   isnan : List Bool       -- per output: is NaN (or the documented INVALID marker) after the call
+  same : List Bool := []  -- per output: bit-identical to the output of the baseline call (every argument valid)
 deriving Repr
 
 /-- "when a function throws, the arguments it uses for return values are left exactly as they were", and only the
@@ -44,7 +48,7 @@ def throwClean (r : Report) : Bool :=
 /-! ## dependence table -/
 
 structure Entry where
-  name : String
+  key : Key               -- the name used in the protocol, with its numeric code (`k% "…"`, see Model/StrKey.lean)
   nout : Nat
   rows : List String      -- one per input
   validates : Bool
@@ -52,10 +56,10 @@ structure Entry where
 deriving Repr
 
 inductive Req where
-  | nan | valid | free
+  | nan | valid | same | free
 deriving DecidableEq, Repr
 
-def reqOfChar (c : Char) : Req := if c = '1' then .nan else if c = '0' then .valid else .free
+def reqOfChar (c : Char) : Req := if c = '1' then .nan else if c = '0' then .valid else if c = '=' then .same else .free
 
 /-- requirement on output `o` when input `i` is NaN -/
 def Entry.req (e : Entry) (i o : Nat) : Req :=
@@ -65,10 +69,11 @@ def Entry.req (e : Entry) (i o : Nat) : Req :=
 
 def Entry.nin (e : Entry) : Nat := e.rows.length
 
-def okOut (q : Req) (isnan : Bool) : Bool :=
+def okOut (q : Req) (isnan : Bool) (same : Bool := true) : Bool :=
   match q with
   | .nan => isnan
   | .valid => !isnan
+  | .same => !isnan && same
   | .free => true
 
 /-- verdict for a call whose argument `i` is NaN (all others at the valid baseline) -/
@@ -76,10 +81,10 @@ def Entry.checkNaN (e : Entry) (i : Nat) (r : Report) : Bool :=
   if e.nanErr.contains i then
     -- documented rejection of a NaN: the library's exception and nothing written, or NaN results
     (r.exc == .lib && r.written.all (· == false)) ||
-      (r.exc == .none && (List.range e.nout).all fun o => okOut (e.req i o) (r.isnan.getD o false))
+      (r.exc == .none && (List.range e.nout).all fun o => okOut (e.req i o) (r.isnan.getD o false) (r.same.getD o false))
   else
     r.exc == .none && r.isnan.length == e.nout &&
-      (List.range e.nout).all fun o => okOut (e.req i o) (r.isnan.getD o false)
+      (List.range e.nout).all fun o => okOut (e.req i o) (r.isnan.getD o false) (r.same.getD o false)
 
 /-- verdict for the baseline call: no exception, every output written and valid -/
 def Entry.checkBase (e : Entry) (r : Report) : Bool :=
@@ -90,243 +95,412 @@ validate, only the library's, and nothing written when it throws -/
 def Entry.checkOther (e : Entry) (r : Report) : Bool :=
   throwClean r && (r.exc == .none || e.validates)
 
+def Entry.name (e : Entry) : String := e.key.s
+
 def wellFormed (e : Entry) : Bool :=
-  e.rows.all (fun row => row.length == e.nout && row.toList.all (fun c => c = '0' || c = '1' || c = 'x')) &&
+  e.rows.all (fun row => row.length == e.nout && row.toList.all (fun c => c = '0' || c = '1' || c = '=' || c = 'x')) &&
     e.nanErr.all (· < e.rows.length)
 
 def table : List Entry := [
-  ⟨"Accumulator", 1, ["1", "1"], false, []⟩,
-  ⟨"Albers.Forward", 4, ["1110", "1101", "1110"], false, []⟩,
-  ⟨"Albers.Reverse", 4, ["0100", "1111", "1111"], false, []⟩,
-  ⟨"Albers.SetScale", 1, ["0", "0"], true, [0, 1]⟩,
-  ⟨"AlbersS.Forward", 4, ["1110", "1101", "1110"], false, []⟩,
-  ⟨"AlbersS.Reverse", 4, ["0100", "1111", "1111"], false, []⟩,
-  ⟨"AuxAngle.degrees", 3, ["111", "111"], false, []⟩,
-  ⟨"AuxLatitude.ConvertExact", 36, ["111111111111111111111111111111111111"], false, []⟩,
-  ⟨"AuxLatitude.ConvertSeries", 36, ["111111111111111111111111111111111111"], false, []⟩,
-  ⟨"AzimuthalEquidistant.Forward", 4, ["1111", "1111", "1111", "1111"], false, []⟩,
-  ⟨"AzimuthalEquidistant.Reverse", 4, ["1111", "0100", "1111", "1111"], false, []⟩,
-  ⟨"CassiniSoldner.Forward", 4, ["0100", "1111", "1111", "1111"], false, []⟩,
-  ⟨"CassiniSoldner.Reverse", 4, ["1111", "0100", "1111", "1111"], false, []⟩,
-  ⟨"CylEA.Forward", 4, ["1xx0", "x1x1", "1xx0"], false, []⟩,
-  ⟨"CylEA.Reverse", 4, ["0100", "x1xx", "1xx1"], false, []⟩,
-  ⟨"DMS.Encode", 3, ["111"], false, []⟩,
-  ⟨"DMS.EncodeDMS", 3, ["111"], false, []⟩,
-  ⟨"Ellipsoid.AuthalicLatitude", 1, ["1"], false, []⟩,
-  ⟨"Ellipsoid.CircleHeight", 1, ["1"], false, []⟩,
-  ⟨"Ellipsoid.CircleRadius", 1, ["1"], false, []⟩,
-  ⟨"Ellipsoid.ConformalLatitude", 1, ["1"], false, []⟩,
-  ⟨"Ellipsoid.EccentricitySqToFlattening", 1, ["1"], false, []⟩,
-  ⟨"Ellipsoid.FlatteningToEccentricitySq", 1, ["1"], false, []⟩,
-  ⟨"Ellipsoid.FlatteningToSecondEccentricitySq", 1, ["1"], false, []⟩,
-  ⟨"Ellipsoid.FlatteningToSecondFlattening", 1, ["1"], false, []⟩,
-  ⟨"Ellipsoid.FlatteningToThirdEccentricitySq", 1, ["1"], false, []⟩,
-  ⟨"Ellipsoid.FlatteningToThirdFlattening", 1, ["1"], false, []⟩,
-  ⟨"Ellipsoid.GeocentricLatitude", 1, ["1"], false, []⟩,
-  ⟨"Ellipsoid.InverseAuthalicLatitude", 1, ["1"], false, []⟩,
-  ⟨"Ellipsoid.InverseConformalLatitude", 1, ["1"], false, []⟩,
-  ⟨"Ellipsoid.InverseGeocentricLatitude", 1, ["1"], false, []⟩,
-  ⟨"Ellipsoid.InverseIsometricLatitude", 1, ["1"], false, []⟩,
-  ⟨"Ellipsoid.InverseParametricLatitude", 1, ["1"], false, []⟩,
-  ⟨"Ellipsoid.InverseRectifyingLatitude", 1, ["1"], false, []⟩,
-  ⟨"Ellipsoid.IsometricLatitude", 1, ["1"], false, []⟩,
-  ⟨"Ellipsoid.MeridianDistance", 1, ["1"], false, []⟩,
-  ⟨"Ellipsoid.MeridionalCurvatureRadius", 1, ["1"], false, []⟩,
-  ⟨"Ellipsoid.NormalCurvatureRadius", 1, ["1", "1"], false, []⟩,
-  ⟨"Ellipsoid.ParametricLatitude", 1, ["1"], false, []⟩,
-  ⟨"Ellipsoid.RectifyingLatitude", 1, ["1"], false, []⟩,
-  ⟨"Ellipsoid.SecondEccentricitySqToFlattening", 1, ["1"], false, []⟩,
-  ⟨"Ellipsoid.SecondFlatteningToFlattening", 1, ["1"], false, []⟩,
-  ⟨"Ellipsoid.ThirdEccentricitySqToFlattening", 1, ["1"], false, []⟩,
-  ⟨"Ellipsoid.ThirdFlatteningToFlattening", 1, ["1"], false, []⟩,
-  ⟨"Ellipsoid.TransverseCurvatureRadius", 1, ["1"], false, []⟩,
-  ⟨"EllipticFunction.D", 1, ["1"], false, []⟩,
-  ⟨"EllipticFunction.D3", 1, ["1", "1", "1"], false, []⟩,
-  ⟨"EllipticFunction.Delta", 1, ["x", "1"], false, []⟩,
-  ⟨"EllipticFunction.E", 1, ["1"], false, []⟩,
-  ⟨"EllipticFunction.E3", 1, ["1", "1", "1"], false, []⟩,
-  ⟨"EllipticFunction.Ed", 1, ["1"], false, []⟩,
-  ⟨"EllipticFunction.Einv", 1, ["1"], false, []⟩,
-  ⟨"EllipticFunction.F", 1, ["1"], false, []⟩,
-  ⟨"EllipticFunction.F3", 1, ["1", "1", "1"], false, []⟩,
-  ⟨"EllipticFunction.G", 1, ["1"], false, []⟩,
-  ⟨"EllipticFunction.G3", 1, ["1", "1", "1"], false, []⟩,
-  ⟨"EllipticFunction.H", 1, ["1"], false, []⟩,
-  ⟨"EllipticFunction.H3", 1, ["1", "1", "1"], false, []⟩,
-  ⟨"EllipticFunction.Pi", 1, ["1"], false, []⟩,
-  ⟨"EllipticFunction.Pi3", 1, ["1", "1", "1"], false, []⟩,
-  ⟨"EllipticFunction.RC", 1, ["1", "1"], false, []⟩,
-  ⟨"EllipticFunction.RD", 1, ["1", "1", "1"], false, []⟩,
-  ⟨"EllipticFunction.RF2", 1, ["1", "1"], false, []⟩,
-  ⟨"EllipticFunction.RF3", 1, ["1", "1", "1"], false, []⟩,
-  ⟨"EllipticFunction.RG2", 1, ["1", "1"], false, []⟩,
-  ⟨"EllipticFunction.RG3", 1, ["1", "1", "1"], false, []⟩,
-  ⟨"EllipticFunction.RJ", 1, ["1", "1", "1", "1"], false, []⟩,
-  ⟨"EllipticFunction.Reset", 3, ["111", "001"], true, []⟩,
-  ⟨"EllipticFunction.am", 1, ["1"], false, []⟩,
-  ⟨"EllipticFunction.am4", 4, ["1111"], false, []⟩,
-  ⟨"EllipticFunction.deltaD3", 1, ["1", "1", "1"], false, []⟩,
-  ⟨"EllipticFunction.deltaE3", 1, ["1", "1", "1"], false, []⟩,
-  ⟨"EllipticFunction.deltaEinv", 1, ["1", "1"], false, []⟩,
-  ⟨"EllipticFunction.deltaF3", 1, ["1", "1", "1"], false, []⟩,
-  ⟨"EllipticFunction.deltaG3", 1, ["1", "1", "1"], false, []⟩,
-  ⟨"EllipticFunction.deltaH3", 1, ["1", "1", "1"], false, []⟩,
-  ⟨"EllipticFunction.deltaPi3", 1, ["1", "1", "1"], false, []⟩,
-  ⟨"EllipticFunction.sncndn", 3, ["111"], false, []⟩,
-  ⟨"GARS.Forward", 1, ["1", "1"], true, []⟩,
-  ⟨"GeoCoords.LatLon", 9, ["1011111x1", "0111111x1"], true, []⟩,
-  ⟨"GeoCoords.UTM", 7, ["111011x", "110111x"], true, []⟩,
-  ⟨"Geocentric.Forward", 3, ["111", "110", "111"], false, []⟩,
-  ⟨"Geocentric.ForwardM", 12, ["111011011011", "110111111000", "111000000000"], false, []⟩,
-  ⟨"Geocentric.Reverse", 3, ["111", "111", "101"], false, []⟩,
-  ⟨"Geocentric.ReverseM", 12, ["111111111011", "111111111011", "101011011011"], false, []⟩,
-  ⟨"GeodE.ArcDirect", 8, ["11111111", "01000000", "11111111", "11111111"], false, []⟩,
-  ⟨"GeodE.ArcDirectLine.Position", 3, ["111", "010", "111", "000", "111"], false, []⟩,
-  ⟨"GeodE.Direct", 8, ["11111111", "01000000", "11111111", "11111111"], false, []⟩,
-  ⟨"GeodE.DirectLine.Position", 3, ["111", "010", "111", "000", "111"], false, []⟩,
-  ⟨"GeodE.GenDirectUnroll", 3, ["111", "010", "111", "111"], false, []⟩,
-  ⟨"GeodE.Inverse", 8, ["11111111", "11111111", "11111111", "11111111"], false, []⟩,
-  ⟨"GeodE.InverseLine.Position", 5, ["11111", "11111", "11111", "11111", "11100"], false, []⟩,
-  ⟨"GeodE.Line.ArcPosition", 8, ["11111111", "01000000", "11111111", "11111111"], false, []⟩,
-  ⟨"GeodE.Line.Position", 8, ["11111111", "01000000", "11111111", "11111111"], false, []⟩,
-  ⟨"GeodE.Line.SetArc", 2, ["10", "00", "10", "11"], false, []⟩,
-  ⟨"GeodE.Line.SetDistance", 2, ["01", "00", "01", "11"], false, []⟩,
-  ⟨"GeodS.ArcDirect", 8, ["11111111", "01000000", "11111111", "11111111"], false, []⟩,
-  ⟨"GeodS.ArcDirectLine.Position", 3, ["111", "010", "111", "000", "111"], false, []⟩,
-  ⟨"GeodS.Direct", 8, ["11111111", "01000000", "11111111", "11111111"], false, []⟩,
-  ⟨"GeodS.DirectLine.Position", 3, ["111", "010", "111", "000", "111"], false, []⟩,
-  ⟨"GeodS.GenDirectUnroll", 3, ["111", "010", "111", "111"], false, []⟩,
-  ⟨"GeodS.Inverse", 8, ["11111111", "11111111", "11111111", "11111111"], false, []⟩,
-  ⟨"GeodS.InverseLine.Position", 5, ["11111", "11111", "11111", "11111", "11100"], false, []⟩,
-  ⟨"GeodS.Line.ArcPosition", 8, ["11111111", "01000000", "11111111", "11111111"], false, []⟩,
-  ⟨"GeodS.Line.Position", 8, ["11111111", "01000000", "11111111", "11111111"], false, []⟩,
-  ⟨"GeodS.Line.SetArc", 2, ["10", "00", "10", "11"], false, []⟩,
-  ⟨"GeodS.Line.SetDistance", 2, ["01", "00", "01", "11"], false, []⟩,
-  ⟨"GeodX.ArcDirect", 8, ["11111111", "01000000", "11111111", "11111111"], false, []⟩,
-  ⟨"GeodX.ArcDirectLine.Position", 3, ["111", "010", "111", "000", "111"], false, []⟩,
-  ⟨"GeodX.Direct", 8, ["11111111", "01000000", "11111111", "11111111"], false, []⟩,
-  ⟨"GeodX.DirectLine.Position", 3, ["111", "010", "111", "000", "111"], false, []⟩,
-  ⟨"GeodX.GenDirectUnroll", 3, ["111", "010", "111", "111"], false, []⟩,
-  ⟨"GeodX.Inverse", 8, ["11111111", "11111111", "11111111", "11111111"], false, []⟩,
-  ⟨"GeodX.InverseLine.Position", 5, ["11111", "11111", "11111", "11111", "11100"], false, []⟩,
-  ⟨"GeodX.Line.ArcPosition", 8, ["11111111", "01000000", "11111111", "11111111"], false, []⟩,
-  ⟨"GeodX.Line.Position", 8, ["11111111", "01000000", "11111111", "11111111"], false, []⟩,
-  ⟨"GeodX.Line.SetArc", 2, ["10", "00", "10", "11"], false, []⟩,
-  ⟨"GeodX.Line.SetDistance", 2, ["01", "00", "01", "11"], false, []⟩,
-  ⟨"Geohash.Forward", 1, ["1", "1"], true, []⟩,
-  ⟨"Geoid.CacheArea", 1, ["0", "0", "0", "0"], true, [0, 1, 2, 3]⟩,
-  ⟨"Geoid.ConvertHeight", 1, ["1", "1", "1"], false, []⟩,
-  ⟨"Geoid.height", 1, ["1", "1"], false, []⟩,
-  ⟨"Geoid.heightCubic", 1, ["1", "1"], false, []⟩,
-  ⟨"Georef.Forward", 1, ["1", "1"], true, []⟩,
-  ⟨"Gnomonic.Forward", 4, ["1111", "1111", "1111", "1111"], false, []⟩,
-  ⟨"Gnomonic.Reverse", 4, ["1111", "0100", "1111", "1111"], false, []⟩,
-  ⟨"GravityModel.Circle", 4, ["1111", "1111", "1111"], false, []⟩,
-  ⟨"GravityModel.CircleGeoid", 1, ["1", "1"], false, []⟩,
-  ⟨"GravityModel.Disturbance", 4, ["1111", "1111", "1111"], false, []⟩,
-  ⟨"GravityModel.GeoidHeight", 1, ["1", "1"], false, []⟩,
-  ⟨"GravityModel.Gravity", 4, ["1111", "1111", "1111"], false, []⟩,
-  ⟨"GravityModel.SphericalAnomaly", 3, ["111", "111", "111"], false, []⟩,
-  ⟨"GravityModel.T", 4, ["1111", "1111", "1111"], false, []⟩,
-  ⟨"GravityModel.U", 4, ["1111", "1111", "1111"], false, []⟩,
-  ⟨"GravityModel.V", 4, ["1111", "1111", "1111"], false, []⟩,
-  ⟨"GravityModel.W", 4, ["1111", "1111", "1111"], false, []⟩,
-  ⟨"Intersect.Closest", 2, ["11", "11", "11", "11", "11", "11"], false, []⟩,
-  ⟨"Intersect.Next", 2, ["11", "11", "11", "11"], false, []⟩,
-  ⟨"Intersect.Segment", 2, ["11", "11", "11", "11", "11", "11", "11", "11"], false, []⟩,
-  ⟨"IntersectExact.Closest", 2, ["11", "11", "11", "11", "11", "11"], false, []⟩,
-  ⟨"LCC.Forward", 4, ["1110", "1101", "1110"], false, []⟩,
-  ⟨"LCC.Reverse", 4, ["0100", "1111", "1111"], false, []⟩,
-  ⟨"LCC.SetScale", 1, ["0", "0"], true, [0, 1]⟩,
-  ⟨"LCCS.Forward", 4, ["1110", "1101", "1110"], false, []⟩,
-  ⟨"LCCS.Reverse", 4, ["0100", "1111", "1111"], false, []⟩,
-  ⟨"LocalCartesian.Forward", 3, ["111", "111", "111", "111", "111", "111"], false, []⟩,
-  ⟨"LocalCartesian.Reset", 3, ["100", "010", "001"], false, []⟩,
-  ⟨"LocalCartesian.Reverse", 3, ["111", "111", "111", "111", "111", "111"], false, []⟩,
-  ⟨"MGRS.Forward", 1, ["1", "1"], true, []⟩,
-  ⟨"MGRS.ForwardLat", 1, ["1", "1", "1"], true, []⟩,
-  ⟨"MGRS.ForwardUPS", 1, ["1", "1"], true, []⟩,
-  ⟨"MagneticModel.Circle", 6, ["111xxx", "111111", "111111", "111111"], false, []⟩,
-  ⟨"MagneticModel.Field", 6, ["111xxx", "111111", "111111", "111111"], false, []⟩,
-  ⟨"MagneticModel.FieldComponents", 8, ["11111111", "11111111", "01010101", "00001111", "00001111", "00000101"], false, []⟩,
-  ⟨"MagneticModel.FieldGeocentric", 6, ["111xxx", "111111", "111111", "111111"], false, []⟩,
-  ⟨"Math.AngDiff", 2, ["11", "11"], false, []⟩,
-  ⟨"Math.AngNormalize", 1, ["1"], false, []⟩,
-  ⟨"Math.AngRound", 1, ["1"], false, []⟩,
-  ⟨"Math.LatFix", 1, ["1"], false, []⟩,
-  ⟨"Math.atan2d", 1, ["1", "1"], false, []⟩,
-  ⟨"Math.atand", 1, ["1"], false, []⟩,
-  ⟨"Math.cosd", 1, ["1"], false, []⟩,
-  ⟨"Math.eatanhe", 1, ["1", "1"], false, []⟩,
-  ⟨"Math.norm", 2, ["11", "11"], false, []⟩,
-  ⟨"Math.sincosd", 2, ["11"], false, []⟩,
-  ⟨"Math.sincosde", 2, ["11", "11"], false, []⟩,
-  ⟨"Math.sind", 1, ["1"], false, []⟩,
-  ⟨"Math.sq", 1, ["1"], false, []⟩,
-  ⟨"Math.sum", 2, ["11", "11"], false, []⟩,
-  ⟨"Math.tand", 1, ["1"], false, []⟩,
-  ⟨"Math.tauf", 1, ["1", "1"], false, []⟩,
-  ⟨"Math.taupf", 1, ["1", "1"], false, []⟩,
-  ⟨"Mercator.Forward", 4, ["1xx0", "x1x1", "1xx0"], false, []⟩,
-  ⟨"Mercator.Reverse", 4, ["0100", "x1xx", "1xx1"], false, []⟩,
-  ⟨"NormalGravity.FlatteningToJ2", 1, ["1", "1", "1", "1"], false, []⟩,
-  ⟨"NormalGravity.Gravity", 3, ["111", "111"], false, []⟩,
-  ⟨"NormalGravity.J2ToFlattening", 1, ["1", "1", "1", "1"], false, []⟩,
-  ⟨"NormalGravity.Phi", 3, ["101", "011"], false, []⟩,
-  ⟨"NormalGravity.SurfaceGravity", 1, ["1"], false, []⟩,
-  ⟨"NormalGravity.U", 4, ["1111", "1111", "1111"], false, []⟩,
-  ⟨"NormalGravity.V0", 4, ["1111", "1111", "1111"], false, []⟩,
-  ⟨"OSGB.Forward", 4, ["1111", "1111"], false, []⟩,
-  ⟨"OSGB.GridReference", 1, ["1", "1"], true, []⟩,
-  ⟨"OSGB.GridReference11", 1, ["1", "1"], true, []⟩,
-  ⟨"OSGB.Reverse", 4, ["1111", "1111"], false, []⟩,
-  ⟨"PS.ForwardN", 4, ["1101", "1110"], false, []⟩,
-  ⟨"PS.ForwardS", 4, ["1101", "1110"], false, []⟩,
-  ⟨"PS.ReverseN", 4, ["1111", "1111"], false, []⟩,
-  ⟨"PS.ReverseS", 4, ["1111", "1111"], false, []⟩,
-  ⟨"PS.SetScale", 1, ["0", "0"], true, [0, 1]⟩,
-  ⟨"PolygonArea.AddEdge", 2, ["11", "11"], false, []⟩,
-  ⟨"PolygonArea.AddPoint", 2, ["11", "11"], false, []⟩,
-  ⟨"PolygonArea.Polyline", 1, ["1", "1"], false, []⟩,
-  ⟨"PolygonArea.TestEdge", 2, ["11", "11"], false, []⟩,
-  ⟨"PolygonArea.TestPoint", 2, ["11", "11"], false, []⟩,
-  ⟨"PolygonAreaExact.AddPoint", 2, ["11", "11"], false, []⟩,
-  ⟨"PolygonAreaRhumb.AddPoint", 2, ["11", "11"], false, []⟩,
-  ⟨"RhumbS.Direct", 3, ["111", "010", "111", "111"], false, []⟩,
-  ⟨"RhumbS.GenDirectUnroll", 2, ["11", "01", "11", "11"], false, []⟩,
-  ⟨"RhumbS.Inverse", 3, ["111", "111", "111", "111"], false, []⟩,
-  ⟨"RhumbS.Line.Position", 3, ["111", "010", "111", "111"], false, []⟩,
-  ⟨"RhumbX.Direct", 3, ["111", "010", "111", "111"], false, []⟩,
-  ⟨"RhumbX.GenDirectUnroll", 2, ["11", "01", "11", "11"], false, []⟩,
-  ⟨"RhumbX.Inverse", 3, ["111", "111", "111", "111"], false, []⟩,
-  ⟨"RhumbX.Line.Position", 3, ["111", "010", "111", "111"], false, []⟩,
-  ⟨"SphericalHarmonic.Circle", 4, ["1111", "1111", "1111"], false, []⟩,
-  ⟨"SphericalHarmonic.Gradient", 4, ["1111", "1111", "1111"], false, []⟩,
-  ⟨"SphericalHarmonic.Value", 1, ["1", "1", "1"], false, []⟩,
-  ⟨"SphericalHarmonic1.Gradient", 4, ["1111", "1111", "1111", "1111"], false, []⟩,
-  ⟨"SphericalHarmonic2.Gradient", 4, ["1111", "1111", "1111", "1111", "1111"], false, []⟩,
-  ⟨"TME.Forward", 4, ["1111", "1111", "1111"], false, []⟩,
-  ⟨"TME.Reverse", 4, ["0100", "1111", "1111"], false, []⟩,
-  ⟨"TMEX.Forward", 4, ["1111", "1111", "1111"], false, []⟩,
-  ⟨"TMEX.Reverse", 4, ["0100", "1111", "1111"], false, []⟩,
-  ⟨"TMS.Forward", 4, ["1111", "1111", "1111"], false, []⟩,
-  ⟨"TMS.Reverse", 4, ["0100", "1111", "1111"], false, []⟩,
-  ⟨"TMX.Forward", 4, ["1111", "1111", "1111"], false, []⟩,
-  ⟨"TMX.Reverse", 4, ["0100", "1111", "1111"], false, []⟩,
-  ⟨"UTMUPS.Forward", 6, ["101111", "101111"], true, []⟩,
-  ⟨"UTMUPS.ForwardSetUPS", 6, ["001101", "001110"], true, []⟩,
-  ⟨"UTMUPS.ForwardSetUTM", 6, ["101111", "101111"], true, []⟩,
-  ⟨"UTMUPS.ForwardUPS", 6, ["101111", "101111"], true, []⟩,
-  ⟨"UTMUPS.ForwardZ31", 6, ["001111", "000000"], true, [1]⟩,
-  ⟨"UTMUPS.Reverse", 4, ["1111", "1111"], true, []⟩,
-  ⟨"UTMUPS.ReverseUPS", 4, ["1111", "1111"], true, []⟩,
-  ⟨"UTMUPS.StandardZone", 1, ["1", "1"], true, []⟩,
-  ⟨"UTMUPS.Transfer", 3, ["000", "000"], true, [0, 1]⟩,
-  ⟨"UTMUPS.TransferSame", 3, ["100", "010"], true, []⟩,
-  ⟨"Utility.str", 1, ["1"], false, []⟩
+  ⟨k% "Accumulator", 1, ["1", "1"], false, []⟩,
+  ⟨k% "Accumulator.assign", 2, ["11"], false, []⟩,
+  ⟨k% "Accumulator.compare", 6, ["000000", "000000"], false, []⟩,
+  ⟨k% "Accumulator.mul", 1, ["1", "1"], false, []⟩,
+  ⟨k% "Accumulator.peek", 1, ["1", "1"], false, []⟩,
+  ⟨k% "Accumulator.remainder", 1, ["1", "1"], false, []⟩,
+  ⟨k% "Albers.Forward", 4, ["111=", "11=1", "111="], false, []⟩,
+  ⟨k% "Albers.Reverse", 4, ["=1==", "1111", "1111"], false, []⟩,
+  ⟨k% "Albers.SetScale", 1, ["0", "0"], true, [0, 1]⟩,
+  ⟨k% "AlbersS.Forward", 4, ["111=", "11=1", "111="], false, []⟩,
+  ⟨k% "AlbersS.Reverse", 4, ["=1==", "1111", "1111"], false, []⟩,
+  ⟨k% "AuxAngle.accessors", 4, ["1111", "1111"], false, []⟩,
+  ⟨k% "AuxAngle.add", 2, ["11", "11", "11", "11"], false, []⟩,
+  ⟨k% "AuxAngle.copyquadrant", 2, ["1=", "=1", "0=", "=0"], false, []⟩,
+  ⟨k% "AuxAngle.degrees", 3, ["111", "111"], false, []⟩,
+  ⟨k% "AuxAngle.fromDegrees", 2, ["11"], false, []⟩,
+  ⟨k% "AuxAngle.fromLam", 2, ["1="], false, []⟩,
+  ⟨k% "AuxAngle.fromLamd", 2, ["1="], false, []⟩,
+  ⟨k% "AuxAngle.fromRadians", 2, ["11"], false, []⟩,
+  ⟨k% "AuxLatitude.Clenshaw", 2, ["11", "11", "11", "11"], false, []⟩,
+  ⟨k% "AuxLatitude.ConvertAngleExact", 36, ["111111111111111111111111111111111111", "111111111111111111111111111111111111"], false, []⟩,
+  ⟨k% "AuxLatitude.ConvertAngleSeries", 36, ["111111111111111111111111111111111111", "111111111111111111111111111111111111"], false, []⟩,
+  ⟨k% "AuxLatitude.ConvertExact", 36, ["111111111111111111111111111111111111"], false, []⟩,
+  ⟨k% "AuxLatitude.ConvertSeries", 36, ["111111111111111111111111111111111111"], false, []⟩,
+  ⟨k% "AuxLatitude.FromAuxiliary", 12, ["111111===000", "111111===000"], false, []⟩,
+  ⟨k% "AuxLatitude.ToAuxiliary", 12, ["111111===111", "111111===111"], false, []⟩,
+  ⟨k% "AuxLatitude.ToAuxiliaryPole", 12, ["111111===111", "111111===111"], false, []⟩,
+  ⟨k% "AzimuthalEquidistant.Forward", 4, ["1111", "1111", "1111", "1111"], false, []⟩,
+  ⟨k% "AzimuthalEquidistant.Reverse", 4, ["1111", "=1==", "1111", "1111"], false, []⟩,
+  ⟨k% "CassiniSoldner.Forward", 4, ["=1==", "1111", "1111", "1111"], false, []⟩,
+  ⟨k% "CassiniSoldner.Reset", 4, ["1==1", "=111"], false, []⟩,
+  ⟨k% "CassiniSoldner.Reverse", 4, ["1111", "=1==", "1111", "1111"], false, []⟩,
+  ⟨k% "CircularEngine.Grad", 4, ["1111"], false, []⟩,
+  ⟨k% "CircularEngine.GradSC", 4, ["1111", "1111"], false, []⟩,
+  ⟨k% "CircularEngine.Value", 1, ["1"], false, []⟩,
+  ⟨k% "CircularEngine.ValueSC", 1, ["1", "1"], false, []⟩,
+  ⟨k% "CylEA.Forward", 4, ["1xx=", "x1x1", "1xx="], false, []⟩,
+  ⟨k% "CylEA.Reverse", 4, ["=1==", "x1xx", "1xx1"], false, []⟩,
+  ⟨k% "DAuxLatitude.D3", 3, ["111", "111"], false, []⟩,
+  ⟨k% "DAuxLatitude.DClenshaw", 2, ["11", "11", "11", "11", "11", "11", "11"], false, []⟩,
+  ⟨k% "DAuxLatitude.DConvert", 36, ["=111111=111111=111111=111111=111111=", "=111111=111111=111111=111111=111111="], false, []⟩,
+  ⟨k% "DAuxLatitude.Dlam", 1, ["1", "1"], false, []⟩,
+  ⟨k% "DAuxLatitude.Dp0Dpsi", 1, ["1", "1"], false, []⟩,
+  ⟨k% "DMS.DecodeDMS", 1, ["1", "1", "1"], false, []⟩,
+  ⟨k% "DMS.Encode", 3, ["111"], false, []⟩,
+  ⟨k% "DMS.EncodeDM", 2, ["11"], false, []⟩,
+  ⟨k% "DMS.EncodeDMS", 3, ["111"], false, []⟩,
+  ⟨k% "DST.eval", 1, ["1", "1", "1", "1"], false, []⟩,
+  ⟨k% "DST.integral", 1, ["1", "1", "1", "1"], false, []⟩,
+  ⟨k% "DST.integral2", 1, ["1", "1", "1", "1", "1", "1"], false, []⟩,
+  ⟨k% "DST.refine", 8, ["11111111", "11111111"], false, []⟩,
+  ⟨k% "DST.transform", 4, ["1111", "1111"], false, []⟩,
+  ⟨k% "Ellipsoid.AuthalicLatitude", 1, ["1"], false, []⟩,
+  ⟨k% "Ellipsoid.CircleHeight", 1, ["1"], false, []⟩,
+  ⟨k% "Ellipsoid.CircleRadius", 1, ["1"], false, []⟩,
+  ⟨k% "Ellipsoid.ConformalLatitude", 1, ["1"], false, []⟩,
+  ⟨k% "Ellipsoid.EccentricitySqToFlattening", 1, ["1"], false, []⟩,
+  ⟨k% "Ellipsoid.FlatteningToEccentricitySq", 1, ["1"], false, []⟩,
+  ⟨k% "Ellipsoid.FlatteningToSecondEccentricitySq", 1, ["1"], false, []⟩,
+  ⟨k% "Ellipsoid.FlatteningToSecondFlattening", 1, ["1"], false, []⟩,
+  ⟨k% "Ellipsoid.FlatteningToThirdEccentricitySq", 1, ["1"], false, []⟩,
+  ⟨k% "Ellipsoid.FlatteningToThirdFlattening", 1, ["1"], false, []⟩,
+  ⟨k% "Ellipsoid.GeocentricLatitude", 1, ["1"], false, []⟩,
+  ⟨k% "Ellipsoid.InverseAuthalicLatitude", 1, ["1"], false, []⟩,
+  ⟨k% "Ellipsoid.InverseConformalLatitude", 1, ["1"], false, []⟩,
+  ⟨k% "Ellipsoid.InverseGeocentricLatitude", 1, ["1"], false, []⟩,
+  ⟨k% "Ellipsoid.InverseIsometricLatitude", 1, ["1"], false, []⟩,
+  ⟨k% "Ellipsoid.InverseParametricLatitude", 1, ["1"], false, []⟩,
+  ⟨k% "Ellipsoid.InverseRectifyingLatitude", 1, ["1"], false, []⟩,
+  ⟨k% "Ellipsoid.IsometricLatitude", 1, ["1"], false, []⟩,
+  ⟨k% "Ellipsoid.MeridianDistance", 1, ["1"], false, []⟩,
+  ⟨k% "Ellipsoid.MeridionalCurvatureRadius", 1, ["1"], false, []⟩,
+  ⟨k% "Ellipsoid.NormalCurvatureRadius", 1, ["1", "1"], false, []⟩,
+  ⟨k% "Ellipsoid.ParametricLatitude", 1, ["1"], false, []⟩,
+  ⟨k% "Ellipsoid.RectifyingLatitude", 1, ["1"], false, []⟩,
+  ⟨k% "Ellipsoid.SecondEccentricitySqToFlattening", 1, ["1"], false, []⟩,
+  ⟨k% "Ellipsoid.SecondFlatteningToFlattening", 1, ["1"], false, []⟩,
+  ⟨k% "Ellipsoid.ThirdEccentricitySqToFlattening", 1, ["1"], false, []⟩,
+  ⟨k% "Ellipsoid.ThirdFlatteningToFlattening", 1, ["1"], false, []⟩,
+  ⟨k% "Ellipsoid.TransverseCurvatureRadius", 1, ["1"], false, []⟩,
+  ⟨k% "EllipticFunction.D", 1, ["1"], false, []⟩,
+  ⟨k% "EllipticFunction.D3", 1, ["1", "1", "1"], false, []⟩,
+  ⟨k% "EllipticFunction.Delta", 1, ["x", "1"], false, []⟩,
+  ⟨k% "EllipticFunction.E", 1, ["1"], false, []⟩,
+  ⟨k% "EllipticFunction.E3", 1, ["1", "1", "1"], false, []⟩,
+  ⟨k% "EllipticFunction.Ed", 1, ["1"], false, []⟩,
+  ⟨k% "EllipticFunction.Einv", 1, ["1"], false, []⟩,
+  ⟨k% "EllipticFunction.F", 1, ["1"], false, []⟩,
+  ⟨k% "EllipticFunction.F3", 1, ["1", "1", "1"], false, []⟩,
+  ⟨k% "EllipticFunction.G", 1, ["1"], false, []⟩,
+  ⟨k% "EllipticFunction.G3", 1, ["1", "1", "1"], false, []⟩,
+  ⟨k% "EllipticFunction.H", 1, ["1"], false, []⟩,
+  ⟨k% "EllipticFunction.H3", 1, ["1", "1", "1"], false, []⟩,
+  ⟨k% "EllipticFunction.Pi", 1, ["1"], false, []⟩,
+  ⟨k% "EllipticFunction.Pi3", 1, ["1", "1", "1"], false, []⟩,
+  ⟨k% "EllipticFunction.RC", 1, ["1", "1"], false, []⟩,
+  ⟨k% "EllipticFunction.RD", 1, ["1", "1", "1"], false, []⟩,
+  ⟨k% "EllipticFunction.RF2", 1, ["1", "1"], false, []⟩,
+  ⟨k% "EllipticFunction.RF3", 1, ["1", "1", "1"], false, []⟩,
+  ⟨k% "EllipticFunction.RG2", 1, ["1", "1"], false, []⟩,
+  ⟨k% "EllipticFunction.RG3", 1, ["1", "1", "1"], false, []⟩,
+  ⟨k% "EllipticFunction.RJ", 1, ["1", "1", "1", "1"], false, []⟩,
+  ⟨k% "EllipticFunction.Reset", 3, ["111", "==1"], true, []⟩,
+  ⟨k% "EllipticFunction.Reset4", 3, ["xxx", "xx1", "111", "xx1"], true, []⟩,
+  ⟨k% "EllipticFunction.am", 1, ["1"], false, []⟩,
+  ⟨k% "EllipticFunction.am4", 4, ["1111"], false, []⟩,
+  ⟨k% "EllipticFunction.deltaD3", 1, ["1", "1", "1"], false, []⟩,
+  ⟨k% "EllipticFunction.deltaE3", 1, ["1", "1", "1"], false, []⟩,
+  ⟨k% "EllipticFunction.deltaEinv", 1, ["1", "1"], false, []⟩,
+  ⟨k% "EllipticFunction.deltaF3", 1, ["1", "1", "1"], false, []⟩,
+  ⟨k% "EllipticFunction.deltaG3", 1, ["1", "1", "1"], false, []⟩,
+  ⟨k% "EllipticFunction.deltaH3", 1, ["1", "1", "1"], false, []⟩,
+  ⟨k% "EllipticFunction.deltaPi3", 1, ["1", "1", "1"], false, []⟩,
+  ⟨k% "EllipticFunction.sncndn", 3, ["111"], false, []⟩,
+  ⟨k% "GARS.Forward", 1, ["1", "1"], true, []⟩,
+  ⟨k% "GARS.Precision", 1, ["0"], false, []⟩,
+  ⟨k% "GeoCoords.CtorLatLon", 17, ["1=111101111111110", "=11111=11111111x="], true, []⟩,
+  ⟨k% "GeoCoords.CtorUPSN", 17, ["111=11==1==11011=", "11=111===1=11011="], true, []⟩,
+  ⟨k% "GeoCoords.CtorUPSS", 17, ["111=11==1==11011=", "11=111===1=11011="], true, []⟩,
+  ⟨k% "GeoCoords.CtorUTMN", 17, ["111=11==1==11011=", "11=111===1=11011="], true, []⟩,
+  ⟨k% "GeoCoords.CtorUTMS", 17, ["111=11==1==11011=", "11=111===1=11011="], true, []⟩,
+  ⟨k% "GeoCoords.LatLon", 9, ["1=11111x1", "=111111x1"], true, []⟩,
+  ⟨k% "GeoCoords.ResetLatLon", 17, ["1=111101111111110", "=11111=11111111x="], true, []⟩,
+  ⟨k% "GeoCoords.ResetStrLatLon", 17, ["1=111101111111110", "=11111=11111111x="], true, []⟩,
+  ⟨k% "GeoCoords.ResetUPSN", 17, ["111=11==1==11011=", "11=111===1=11011="], true, []⟩,
+  ⟨k% "GeoCoords.ResetUPSS", 17, ["111=11==1==11011=", "11=111===1=11011="], true, []⟩,
+  ⟨k% "GeoCoords.ResetUTMN", 17, ["111=11==1==11011=", "11=111===1=11011="], true, []⟩,
+  ⟨k% "GeoCoords.ResetUTMS", 17, ["111=11==1==11011=", "11=111===1=11011="], true, []⟩,
+  ⟨k% "GeoCoords.StrLatLon", 17, ["1=111101111111110", "=11111=11111111x="], true, []⟩,
+  ⟨k% "GeoCoords.StrUPSN", 17, ["111=11==1==11011=", "11=111===1=11011="], true, []⟩,
+  ⟨k% "GeoCoords.StrUPSS", 17, ["111=11==1==11011=", "11=111===1=11011="], true, []⟩,
+  ⟨k% "GeoCoords.StrUTMN", 17, ["111=11==1==11011=", "11=111===1=11011="], true, []⟩,
+  ⟨k% "GeoCoords.StrUTMS", 17, ["111=11==1==11011=", "11=111===1=11011="], true, []⟩,
+  ⟨k% "GeoCoords.UTM", 7, ["111=11x", "11=111x"], true, []⟩,
+  ⟨k% "Geocentric.Forward", 3, ["111", "11=", "111"], false, []⟩,
+  ⟨k% "Geocentric.ForwardM", 12, ["111=11=11=11", "11=111111===", "111========="], false, []⟩,
+  ⟨k% "Geocentric.Reverse", 3, ["111", "111", "1=1"], false, []⟩,
+  ⟨k% "Geocentric.ReverseM", 12, ["111111111=11", "111111111=11", "1=1=11=11=11"], false, []⟩,
+  ⟨k% "GeodE.ArcDirect", 8, ["11111111", "=1======", "11111111", "11111111"], false, []⟩,
+  ⟨k% "GeodE.ArcDirectLine.Position", 3, ["111", "=1=", "111", "===", "111"], false, []⟩,
+  ⟨k% "GeodE.Direct", 8, ["11111111", "=1======", "11111111", "11111111"], false, []⟩,
+  ⟨k% "GeodE.DirectLine.Position", 3, ["111", "=1=", "111", "===", "111"], false, []⟩,
+  ⟨k% "GeodE.GenDirect", 9, ["111=11111", "=1=======", "111=11111", "111111111"], false, []⟩,
+  ⟨k% "GeodE.GenDirectArc", 9, ["11111111=", "=1=======", "11111111=", "111111111"], false, []⟩,
+  ⟨k% "GeodE.GenDirectLine.Position", 3, ["111", "=1=", "111", "===", "111"], false, []⟩,
+  ⟨k% "GeodE.GenDirectUnroll", 3, ["111", "=1=", "111", "111"], false, []⟩,
+  ⟨k% "GeodE.GenInverse", 8, ["11111111", "11111111", "11111111", "11111111"], false, []⟩,
+  ⟨k% "GeodE.Inverse", 8, ["11111111", "11111111", "11111111", "11111111"], false, []⟩,
+  ⟨k% "GeodE.InverseLine.Position", 5, ["11111", "11111", "11111", "11111", "111=="], false, []⟩,
+  ⟨k% "GeodE.Line.Accessors", 5, ["1===1", "=1===", "==111"], false, []⟩,
+  ⟨k% "GeodE.Line.ArcPosition", 8, ["11111111", "=1======", "11111111", "11111111"], false, []⟩,
+  ⟨k% "GeodE.Line.GenSetArc", 2, ["1=", "==", "1=", "11"], false, []⟩,
+  ⟨k% "GeodE.Line.GenSetDistance", 2, ["=1", "==", "=1", "11"], false, []⟩,
+  ⟨k% "GeodE.Line.Position", 8, ["11111111", "=1======", "11111111", "11111111"], false, []⟩,
+  ⟨k% "GeodE.Line.SetArc", 2, ["1=", "==", "1=", "11"], false, []⟩,
+  ⟨k% "GeodE.Line.SetDistance", 2, ["=1", "==", "=1", "11"], false, []⟩,
+  ⟨k% "GeodE.LineCtor.GenPosition", 9, ["111=11111", "=1=======", "111=11111", "111111111"], false, []⟩,
+  ⟨k% "GeodE.LineCtor.GenPositionArc", 9, ["11111111=", "=1=======", "11111111=", "111111111"], false, []⟩,
+  ⟨k% "GeodS.ArcDirect", 8, ["11111111", "=1======", "11111111", "11111111"], false, []⟩,
+  ⟨k% "GeodS.ArcDirectLine.Position", 3, ["111", "=1=", "111", "===", "111"], false, []⟩,
+  ⟨k% "GeodS.Direct", 8, ["11111111", "=1======", "11111111", "11111111"], false, []⟩,
+  ⟨k% "GeodS.DirectLine.Position", 3, ["111", "=1=", "111", "===", "111"], false, []⟩,
+  ⟨k% "GeodS.GenDirect", 9, ["111=11111", "=1=======", "111=11111", "111111111"], false, []⟩,
+  ⟨k% "GeodS.GenDirectArc", 9, ["11111111=", "=1=======", "11111111=", "111111111"], false, []⟩,
+  ⟨k% "GeodS.GenDirectLine.Position", 3, ["111", "=1=", "111", "===", "111"], false, []⟩,
+  ⟨k% "GeodS.GenDirectUnroll", 3, ["111", "=1=", "111", "111"], false, []⟩,
+  ⟨k% "GeodS.GenInverse", 8, ["11111111", "11111111", "11111111", "11111111"], false, []⟩,
+  ⟨k% "GeodS.Inverse", 8, ["11111111", "11111111", "11111111", "11111111"], false, []⟩,
+  ⟨k% "GeodS.InverseLine.Position", 5, ["11111", "11111", "11111", "11111", "111=="], false, []⟩,
+  ⟨k% "GeodS.Line.Accessors", 5, ["1===1", "=1===", "==111"], false, []⟩,
+  ⟨k% "GeodS.Line.ArcPosition", 8, ["11111111", "=1======", "11111111", "11111111"], false, []⟩,
+  ⟨k% "GeodS.Line.GenSetArc", 2, ["1=", "==", "1=", "11"], false, []⟩,
+  ⟨k% "GeodS.Line.GenSetDistance", 2, ["=1", "==", "=1", "11"], false, []⟩,
+  ⟨k% "GeodS.Line.Position", 8, ["11111111", "=1======", "11111111", "11111111"], false, []⟩,
+  ⟨k% "GeodS.Line.SetArc", 2, ["1=", "==", "1=", "11"], false, []⟩,
+  ⟨k% "GeodS.Line.SetDistance", 2, ["=1", "==", "=1", "11"], false, []⟩,
+  ⟨k% "GeodS.LineCtor.GenPosition", 9, ["111=11111", "=1=======", "111=11111", "111111111"], false, []⟩,
+  ⟨k% "GeodS.LineCtor.GenPositionArc", 9, ["11111111=", "=1=======", "11111111=", "111111111"], false, []⟩,
+  ⟨k% "GeodX.ArcDirect", 8, ["11111111", "=1======", "11111111", "11111111"], false, []⟩,
+  ⟨k% "GeodX.ArcDirectLine.Position", 3, ["111", "=1=", "111", "===", "111"], false, []⟩,
+  ⟨k% "GeodX.Direct", 8, ["11111111", "=1======", "11111111", "11111111"], false, []⟩,
+  ⟨k% "GeodX.DirectLine.Position", 3, ["111", "=1=", "111", "===", "111"], false, []⟩,
+  ⟨k% "GeodX.GenDirect", 9, ["111=11111", "=1=======", "111=11111", "111111111"], false, []⟩,
+  ⟨k% "GeodX.GenDirectArc", 9, ["11111111=", "=1=======", "11111111=", "111111111"], false, []⟩,
+  ⟨k% "GeodX.GenDirectLine.Position", 3, ["111", "=1=", "111", "===", "111"], false, []⟩,
+  ⟨k% "GeodX.GenDirectUnroll", 3, ["111", "=1=", "111", "111"], false, []⟩,
+  ⟨k% "GeodX.GenInverse", 8, ["11111111", "11111111", "11111111", "11111111"], false, []⟩,
+  ⟨k% "GeodX.Inverse", 8, ["11111111", "11111111", "11111111", "11111111"], false, []⟩,
+  ⟨k% "GeodX.InverseLine.Position", 5, ["11111", "11111", "11111", "11111", "111=="], false, []⟩,
+  ⟨k% "GeodX.Line.Accessors", 5, ["1===1", "=1===", "==111"], false, []⟩,
+  ⟨k% "GeodX.Line.ArcPosition", 8, ["11111111", "=1======", "11111111", "11111111"], false, []⟩,
+  ⟨k% "GeodX.Line.GenSetArc", 2, ["1=", "==", "1=", "11"], false, []⟩,
+  ⟨k% "GeodX.Line.GenSetDistance", 2, ["=1", "==", "=1", "11"], false, []⟩,
+  ⟨k% "GeodX.Line.Position", 8, ["11111111", "=1======", "11111111", "11111111"], false, []⟩,
+  ⟨k% "GeodX.Line.SetArc", 2, ["1=", "==", "1=", "11"], false, []⟩,
+  ⟨k% "GeodX.Line.SetDistance", 2, ["=1", "==", "=1", "11"], false, []⟩,
+  ⟨k% "GeodX.LineCtor.GenPosition", 9, ["111=11111", "=1=======", "111=11111", "111111111"], false, []⟩,
+  ⟨k% "GeodX.LineCtor.GenPositionArc", 9, ["11111111=", "=1=======", "11111111=", "111111111"], false, []⟩,
+  ⟨k% "Geohash.Forward", 1, ["1", "1"], true, []⟩,
+  ⟨k% "Geohash.GeohashLength", 1, ["0"], false, []⟩,
+  ⟨k% "Geohash.GeohashLength2", 1, ["0", "0"], false, []⟩,
+  ⟨k% "Geoid.CacheArea", 1, ["0", "0", "0", "0"], true, [0, 1, 2, 3]⟩,
+  ⟨k% "Geoid.ConvertHeight", 1, ["1", "1", "1"], false, []⟩,
+  ⟨k% "Geoid.height", 1, ["1", "1"], false, []⟩,
+  ⟨k% "Geoid.heightCubic", 1, ["1", "1"], false, []⟩,
+  ⟨k% "Georef.Forward", 1, ["1", "1"], true, []⟩,
+  ⟨k% "Georef.Precision", 1, ["0"], false, []⟩,
+  ⟨k% "Gnomonic.Forward", 4, ["1111", "1111", "1111", "1111"], false, []⟩,
+  ⟨k% "Gnomonic.Reverse", 4, ["1111", "=1==", "1111", "1111"], false, []⟩,
+  ⟨k% "GravityCircle.Disturbance", 4, ["1111", "1111", "1111"], false, []⟩,
+  ⟨k% "GravityCircle.SphericalAnomaly", 3, ["111", "111", "111"], false, []⟩,
+  ⟨k% "GravityCircle.T", 4, ["1111", "1111", "1111"], false, []⟩,
+  ⟨k% "GravityCircle.T1", 1, ["1", "1", "1"], false, []⟩,
+  ⟨k% "GravityCircle.V", 4, ["1111", "1111", "1111"], false, []⟩,
+  ⟨k% "GravityCircle.W", 4, ["1111", "1111", "1111"], false, []⟩,
+  ⟨k% "GravityModel.Circle", 4, ["1111", "1111", "1111"], false, []⟩,
+  ⟨k% "GravityModel.CircleGeoid", 1, ["1", "1"], false, []⟩,
+  ⟨k% "GravityModel.Disturbance", 4, ["1111", "1111", "1111"], false, []⟩,
+  ⟨k% "GravityModel.GeoidHeight", 1, ["1", "1"], false, []⟩,
+  ⟨k% "GravityModel.Gravity", 4, ["1111", "1111", "1111"], false, []⟩,
+  ⟨k% "GravityModel.Phi", 3, ["1=1", "=11"], false, []⟩,
+  ⟨k% "GravityModel.SphericalAnomaly", 3, ["111", "111", "111"], false, []⟩,
+  ⟨k% "GravityModel.T", 4, ["1111", "1111", "1111"], false, []⟩,
+  ⟨k% "GravityModel.T1", 1, ["1", "1", "1"], false, []⟩,
+  ⟨k% "GravityModel.U", 4, ["1111", "1111", "1111"], false, []⟩,
+  ⟨k% "GravityModel.V", 4, ["1111", "1111", "1111"], false, []⟩,
+  ⟨k% "GravityModel.W", 4, ["1111", "1111", "1111"], false, []⟩,
+  ⟨k% "Intersect.All", 3, ["011", "011", "011", "011", "011", "011", "011", "011", "011"], true, []⟩,
+  ⟨k% "Intersect.AllC", 3, ["011", "011", "011", "011", "011", "011", "011", "011", "011"], true, []⟩,
+  ⟨k% "Intersect.AllLines", 3, ["011", "011", "011", "011", "011", "011", "011", "011", "011"], true, []⟩,
+  ⟨k% "Intersect.AllLinesC", 3, ["011", "011", "011", "011", "011", "011", "011", "011", "011"], true, []⟩,
+  ⟨k% "Intersect.Closest", 2, ["11", "11", "11", "11", "11", "11"], false, []⟩,
+  ⟨k% "Intersect.ClosestLines", 2, ["11", "11", "11", "11", "11", "11"], false, []⟩,
+  ⟨k% "Intersect.ClosestP0", 3, ["110", "110", "110", "110", "110", "110", "110", "110"], false, []⟩,
+  ⟨k% "Intersect.Dist", 1, ["1", "1", "1", "1"], false, []⟩,
+  ⟨k% "Intersect.Next", 2, ["11", "11", "11", "11"], false, []⟩,
+  ⟨k% "Intersect.NextLines", 2, ["11", "11", "11", "11"], false, []⟩,
+  ⟨k% "Intersect.Segment", 3, ["110", "110", "110", "110", "110", "110", "110", "110"], false, []⟩,
+  ⟨k% "Intersect.SegmentLines", 3, ["110", "110", "110", "110", "110", "110", "110", "110"], false, []⟩,
+  ⟨k% "IntersectExact.Closest", 2, ["11", "11", "11", "11", "11", "11"], false, []⟩,
+  ⟨k% "LCC.Forward", 4, ["111=", "11=1", "111="], false, []⟩,
+  ⟨k% "LCC.Reverse", 4, ["=1==", "1111", "1111"], false, []⟩,
+  ⟨k% "LCC.SetScale", 1, ["0", "0"], true, [0, 1]⟩,
+  ⟨k% "LCCS.Forward", 4, ["111=", "11=1", "111="], false, []⟩,
+  ⟨k% "LCCS.Reverse", 4, ["=1==", "1111", "1111"], false, []⟩,
+  ⟨k% "LocalCartesian.Forward", 3, ["111", "111", "111", "111", "111", "111"], false, []⟩,
+  ⟨k% "LocalCartesian.ForwardM", 12, ["111===111111", "111111111111", "111=========", "111=11=11=11", "111111111111", "111========="], false, []⟩,
+  ⟨k% "LocalCartesian.Reset", 3, ["1==", "=1=", "==1"], false, []⟩,
+  ⟨k% "LocalCartesian.Reverse", 3, ["111", "111", "111", "111", "111", "111"], false, []⟩,
+  ⟨k% "LocalCartesian.ReverseM", 12, ["111111111111", "111111111111", "111111111111", "111111111111", "111111111111", "111111111111"], false, []⟩,
+  ⟨k% "MGRS.Forward", 1, ["1", "1"], true, []⟩,
+  ⟨k% "MGRS.ForwardLat", 1, ["1", "1", "1"], true, []⟩,
+  ⟨k% "MGRS.ForwardUPS", 1, ["1", "1"], true, []⟩,
+  ⟨k% "MagneticCircle.Field3", 3, ["111", "111", "111", "111"], false, []⟩,
+  ⟨k% "MagneticCircle.FieldGeocentric", 6, ["111xxx", "111111", "111111", "111111"], false, []⟩,
+  ⟨k% "MagneticModel.Circle", 6, ["111xxx", "111111", "111111", "111111"], false, []⟩,
+  ⟨k% "MagneticModel.Field", 6, ["111xxx", "111111", "111111", "111111"], false, []⟩,
+  ⟨k% "MagneticModel.Field3", 3, ["111", "111", "111", "111"], false, []⟩,
+  ⟨k% "MagneticModel.FieldComponents", 8, ["11111111", "11111111", "=1=1=1=1", "====1111", "====1111", "=====1=1"], false, []⟩,
+  ⟨k% "MagneticModel.FieldComponents4", 4, ["1111", "1111", "=1=1"], false, []⟩,
+  ⟨k% "MagneticModel.FieldGeocentric", 6, ["111xxx", "111111", "111111", "111111"], false, []⟩,
+  ⟨k% "Math.AngDiff", 2, ["11", "11"], false, []⟩,
+  ⟨k% "Math.AngDiff2", 1, ["1", "1"], false, []⟩,
+  ⟨k% "Math.AngNormalize", 1, ["1"], false, []⟩,
+  ⟨k% "Math.AngRound", 1, ["1"], false, []⟩,
+  ⟨k% "Math.LatFix", 1, ["1"], false, []⟩,
+  ⟨k% "Math.atan2d", 1, ["1", "1"], false, []⟩,
+  ⟨k% "Math.atand", 1, ["1"], false, []⟩,
+  ⟨k% "Math.cosd", 1, ["1"], false, []⟩,
+  ⟨k% "Math.eatanhe", 1, ["1", "1"], false, []⟩,
+  ⟨k% "Math.hypot3", 1, ["1", "1", "1"], false, []⟩,
+  ⟨k% "Math.norm", 2, ["11", "11"], false, []⟩,
+  ⟨k% "Math.polyval", 1, ["1", "1", "1", "1"], false, []⟩,
+  ⟨k% "Math.sincosd", 2, ["11"], false, []⟩,
+  ⟨k% "Math.sincosde", 2, ["11", "11"], false, []⟩,
+  ⟨k% "Math.sind", 1, ["1"], false, []⟩,
+  ⟨k% "Math.sq", 1, ["1"], false, []⟩,
+  ⟨k% "Math.sum", 2, ["11", "11"], false, []⟩,
+  ⟨k% "Math.tand", 1, ["1"], false, []⟩,
+  ⟨k% "Math.tauf", 1, ["1", "1"], false, []⟩,
+  ⟨k% "Math.taupf", 1, ["1", "1"], false, []⟩,
+  ⟨k% "MathF.AngDiff", 2, ["11", "11"], false, []⟩,
+  ⟨k% "MathF.AngDiff2", 1, ["1", "1"], false, []⟩,
+  ⟨k% "MathF.AngNormalize", 1, ["1"], false, []⟩,
+  ⟨k% "MathF.AngRound", 1, ["1"], false, []⟩,
+  ⟨k% "MathF.LatFix", 1, ["1"], false, []⟩,
+  ⟨k% "MathF.atan2d", 1, ["1", "1"], false, []⟩,
+  ⟨k% "MathF.atand", 1, ["1"], false, []⟩,
+  ⟨k% "MathF.cosd", 1, ["1"], false, []⟩,
+  ⟨k% "MathF.eatanhe", 1, ["1", "1"], false, []⟩,
+  ⟨k% "MathF.hypot3", 1, ["1", "1", "1"], false, []⟩,
+  ⟨k% "MathF.polyval", 1, ["1", "1", "1", "1"], false, []⟩,
+  ⟨k% "MathF.sincosd", 2, ["11"], false, []⟩,
+  ⟨k% "MathF.sincosde", 2, ["11", "11"], false, []⟩,
+  ⟨k% "MathF.sind", 1, ["1"], false, []⟩,
+  ⟨k% "MathF.sq", 1, ["1"], false, []⟩,
+  ⟨k% "MathF.sum", 2, ["11", "11"], false, []⟩,
+  ⟨k% "MathF.tand", 1, ["1"], false, []⟩,
+  ⟨k% "MathF.tauf", 1, ["1", "1"], false, []⟩,
+  ⟨k% "MathF.taupf", 1, ["1", "1"], false, []⟩,
+  ⟨k% "MathL.AngDiff", 2, ["11", "11"], false, []⟩,
+  ⟨k% "MathL.AngDiff2", 1, ["1", "1"], false, []⟩,
+  ⟨k% "MathL.AngNormalize", 1, ["1"], false, []⟩,
+  ⟨k% "MathL.AngRound", 1, ["1"], false, []⟩,
+  ⟨k% "MathL.LatFix", 1, ["1"], false, []⟩,
+  ⟨k% "MathL.atan2d", 1, ["1", "1"], false, []⟩,
+  ⟨k% "MathL.atand", 1, ["1"], false, []⟩,
+  ⟨k% "MathL.cosd", 1, ["1"], false, []⟩,
+  ⟨k% "MathL.eatanhe", 1, ["1", "1"], false, []⟩,
+  ⟨k% "MathL.hypot3", 1, ["1", "1", "1"], false, []⟩,
+  ⟨k% "MathL.polyval", 1, ["1", "1", "1", "1"], false, []⟩,
+  ⟨k% "MathL.sincosd", 2, ["11"], false, []⟩,
+  ⟨k% "MathL.sincosde", 2, ["11", "11"], false, []⟩,
+  ⟨k% "MathL.sind", 1, ["1"], false, []⟩,
+  ⟨k% "MathL.sq", 1, ["1"], false, []⟩,
+  ⟨k% "MathL.sum", 2, ["11", "11"], false, []⟩,
+  ⟨k% "MathL.tand", 1, ["1"], false, []⟩,
+  ⟨k% "MathL.tauf", 1, ["1", "1"], false, []⟩,
+  ⟨k% "MathL.taupf", 1, ["1", "1"], false, []⟩,
+  ⟨k% "Mercator.Forward", 4, ["1xx=", "x1x1", "1xx="], false, []⟩,
+  ⟨k% "Mercator.Reverse", 4, ["=1==", "x1xx", "1xx1"], false, []⟩,
+  ⟨k% "NormalGravity.FlatteningToJ2", 1, ["1", "1", "1", "1"], false, []⟩,
+  ⟨k% "NormalGravity.Gravity", 3, ["111", "111"], false, []⟩,
+  ⟨k% "NormalGravity.J2ToFlattening", 1, ["1", "1", "1", "1"], false, []⟩,
+  ⟨k% "NormalGravity.Phi", 3, ["1=1", "=11"], false, []⟩,
+  ⟨k% "NormalGravity.SurfaceGravity", 1, ["1"], false, []⟩,
+  ⟨k% "NormalGravity.U", 4, ["1111", "1111", "1111"], false, []⟩,
+  ⟨k% "NormalGravity.V0", 4, ["1111", "1111", "1111"], false, []⟩,
+  ⟨k% "OSGB.Forward", 4, ["1111", "1111"], false, []⟩,
+  ⟨k% "OSGB.GridReference", 1, ["1", "1"], true, []⟩,
+  ⟨k% "OSGB.GridReference11", 1, ["1", "1"], true, []⟩,
+  ⟨k% "OSGB.Reverse", 4, ["1111", "1111"], false, []⟩,
+  ⟨k% "PS.ForwardN", 4, ["11=1", "111="], false, []⟩,
+  ⟨k% "PS.ForwardS", 4, ["11=1", "111="], false, []⟩,
+  ⟨k% "PS.ReverseN", 4, ["1111", "1111"], false, []⟩,
+  ⟨k% "PS.ReverseS", 4, ["1111", "1111"], false, []⟩,
+  ⟨k% "PS.SetScale", 1, ["0", "0"], true, [0, 1]⟩,
+  ⟨k% "PolygonArea.AddEdge", 2, ["11", "11"], false, []⟩,
+  ⟨k% "PolygonArea.AddPoint", 2, ["11", "11"], false, []⟩,
+  ⟨k% "PolygonArea.Polyline", 1, ["1", "1"], false, []⟩,
+  ⟨k% "PolygonArea.TestEdge", 3, ["11=", "11="], false, []⟩,
+  ⟨k% "PolygonArea.TestPoint", 3, ["11=", "11="], false, []⟩,
+  ⟨k% "PolygonAreaExact.AddEdge", 2, ["11", "11"], false, []⟩,
+  ⟨k% "PolygonAreaExact.AddPoint", 2, ["11", "11"], false, []⟩,
+  ⟨k% "PolygonAreaExact.TestEdge", 3, ["11=", "11="], false, []⟩,
+  ⟨k% "PolygonAreaExact.TestPoint", 3, ["11=", "11="], false, []⟩,
+  ⟨k% "PolygonAreaRhumb.AddEdge", 2, ["11", "11"], false, []⟩,
+  ⟨k% "PolygonAreaRhumb.AddPoint", 2, ["11", "11"], false, []⟩,
+  ⟨k% "PolygonAreaRhumb.TestEdge", 3, ["11=", "11="], false, []⟩,
+  ⟨k% "PolygonAreaRhumb.TestPoint", 3, ["11=", "11="], false, []⟩,
+  ⟨k% "RhumbS.Direct", 3, ["111", "=1=", "111", "111"], false, []⟩,
+  ⟨k% "RhumbS.GenDirect", 3, ["111", "=1=", "111", "111"], false, []⟩,
+  ⟨k% "RhumbS.GenDirectUnroll", 2, ["11", "=1", "11", "11"], false, []⟩,
+  ⟨k% "RhumbS.GenInverse", 3, ["111", "111", "111", "111"], false, []⟩,
+  ⟨k% "RhumbS.Inverse", 3, ["111", "111", "111", "111"], false, []⟩,
+  ⟨k% "RhumbS.Line.GenPosition", 3, ["111", "=1=", "111", "111"], false, []⟩,
+  ⟨k% "RhumbS.Line.Position", 3, ["111", "=1=", "111", "111"], false, []⟩,
+  ⟨k% "RhumbX.Direct", 3, ["111", "=1=", "111", "111"], false, []⟩,
+  ⟨k% "RhumbX.GenDirect", 3, ["111", "=1=", "111", "111"], false, []⟩,
+  ⟨k% "RhumbX.GenDirectUnroll", 2, ["11", "=1", "11", "11"], false, []⟩,
+  ⟨k% "RhumbX.GenInverse", 3, ["111", "111", "111", "111"], false, []⟩,
+  ⟨k% "RhumbX.Inverse", 3, ["111", "111", "111", "111"], false, []⟩,
+  ⟨k% "RhumbX.Line.GenPosition", 3, ["111", "=1=", "111", "111"], false, []⟩,
+  ⟨k% "RhumbX.Line.Position", 3, ["111", "=1=", "111", "111"], false, []⟩,
+  ⟨k% "SphericalEngine.coeff.CvSv", 4, ["11=="], false, []⟩,
+  ⟨k% "SphericalHarmonic.Circle", 4, ["1111", "1111", "1111"], false, []⟩,
+  ⟨k% "SphericalHarmonic.CircleValue", 1, ["1", "1", "1"], false, []⟩,
+  ⟨k% "SphericalHarmonic.Gradient", 4, ["1111", "1111", "1111"], false, []⟩,
+  ⟨k% "SphericalHarmonic.Value", 1, ["1", "1", "1"], false, []⟩,
+  ⟨k% "SphericalHarmonic1.Circle", 4, ["1111", "1111", "1111", "1111"], false, []⟩,
+  ⟨k% "SphericalHarmonic1.Gradient", 4, ["1111", "1111", "1111", "1111"], false, []⟩,
+  ⟨k% "SphericalHarmonic1.Value", 1, ["1", "1", "1", "1"], false, []⟩,
+  ⟨k% "SphericalHarmonic2.Circle", 4, ["1111", "1111", "1111", "1111", "1111"], false, []⟩,
+  ⟨k% "SphericalHarmonic2.Gradient", 4, ["1111", "1111", "1111", "1111", "1111"], false, []⟩,
+  ⟨k% "SphericalHarmonic2.Value", 1, ["1", "1", "1", "1", "1"], false, []⟩,
+  ⟨k% "TME.Forward", 4, ["1111", "1111", "1111"], false, []⟩,
+  ⟨k% "TME.Reverse", 4, ["=1==", "1111", "1111"], false, []⟩,
+  ⟨k% "TMEX.Forward", 4, ["1111", "1111", "1111"], false, []⟩,
+  ⟨k% "TMEX.Reverse", 4, ["=1==", "1111", "1111"], false, []⟩,
+  ⟨k% "TMS.Forward", 4, ["1111", "1111", "1111"], false, []⟩,
+  ⟨k% "TMS.Reverse", 4, ["=1==", "1111", "1111"], false, []⟩,
+  ⟨k% "TMX.Forward", 4, ["1111", "1111", "1111"], false, []⟩,
+  ⟨k% "TMX.Reverse", 4, ["=1==", "1111", "1111"], false, []⟩,
+  ⟨k% "UTMUPS.Forward", 6, ["101111", "1=1111"], true, []⟩,
+  ⟨k% "UTMUPS.ForwardSetUPS", 6, ["=011=1", "==111="], true, []⟩,
+  ⟨k% "UTMUPS.ForwardSetUTM", 6, ["101111", "1=1111"], true, []⟩,
+  ⟨k% "UTMUPS.ForwardUPS", 6, ["101111", "1=1111"], true, []⟩,
+  ⟨k% "UTMUPS.ForwardZ31", 6, ["=01111", "000000"], true, [1]⟩,
+  ⟨k% "UTMUPS.Reverse", 4, ["1111", "1111"], true, []⟩,
+  ⟨k% "UTMUPS.ReverseUPS", 4, ["1111", "1111"], true, []⟩,
+  ⟨k% "UTMUPS.StandardZone", 1, ["1", "1"], true, []⟩,
+  ⟨k% "UTMUPS.Transfer", 3, ["000", "000"], true, [0, 1]⟩,
+  ⟨k% "UTMUPS.TransferSame", 3, ["1==", "=1="], true, []⟩,
+  ⟨k% "Utility.str", 1, ["1"], false, []⟩
 ]
 
 def find (name : String) : Option Entry := table.find? (·.name == name)
+/-- look-up by numeric code (what the kernel-checked obligations use) -/
+def findKey (k : Key) : Option Entry := table.find? (·.key == k)
 
 /-! ## constructor validation predicates (binary64, as coded) -/
 
@@ -377,11 +551,32 @@ def elliptic4OK (k2 alpha2 kp2 alphap2 : F64) : Bool :=
   !(F64.gt k2 one) && !(F64.gt alpha2 one) && !(F64.lt kp2 0) && !(F64.lt alphap2 0)
 def elliptic2OK (k2 alpha2 : F64) : Bool := elliptic4OK k2 alpha2 (one - k2) (one - alpha2)
 
+/-- `GeoCoords(lat, lon)` (= `UTMUPS::Forward` with the standard zone): only a latitude beyond ±90° is rejected; a NaN is not -/
+def geoCoordsLatLonOK (lat _lon : F64) : Bool := !F64.gt (F64.abs lat) MathF.qd
+/-- `GeoCoords(zone, northp, x, y)` (= `UTMUPS::Reverse`, then the hemisphere fix-up, which cannot fail inside the UTM / UPS
+coordinate ranges) -/
+def geoCoordsUTMOK (zone : Int) (northp : Bool) (x y : F64) : Bool :=
+  match UTMUPS.reverseAccepts zone northp x y false with
+  | .ok _ => true
+  | .error _ => false
+
+/-- constructors that accept every argument: the geodesic line (the documented exception to "constructors reject"), the origins of
+the local systems, angles, accumulators, the reference radius of a harmonic sum -/
+def totalCtors : List (Key × Nat) :=
+  [(k% "GeodesicLine", 3), (k% "GeodesicLineExact", 3), (k% "LocalCartesian", 3), (k% "CassiniSoldner", 2), (k% "AuxAngle", 2), (k% "Accumulator", 1),
+   (k% "SphericalHarmonicRadius", 1)]
+
 /-- dispatch by the class name used in the protocol; `none` = unknown class / wrong arity -/
 def ctorOK (cls : String) (p : List F64) : Option Bool :=
+  if totalCtors.any (fun c => c.1.s == cls && c.2 == p.length) then some true else
   match cls, p with
-  | "Geodesic", [a, f] | "GeodesicX", [a, f] | "GeodesicExact", [a, f] | "Rhumb", [a, f] | "Ellipsoid", [a, f]
-  | "AuxLatitude", [a, f] => some (abOK a f)
+  | "Geodesic", [a, f] | "GeodesicX", [a, f] | "GeodesicExact", [a, f] | "Rhumb", [a, f] | "RhumbX", [a, f] | "Ellipsoid", [a, f]
+  | "AuxLatitude", [a, f] | "DAuxLatitude", [a, f] => some (abOK a f)
+  | "GeoCoordsLatLon", [lat, lon] => some (geoCoordsLatLonOK lat lon)
+  | "GeoCoordsUTM32N", [x, y] => some (geoCoordsUTMOK 32 true x y)
+  | "GeoCoordsUTM32S", [x, y] => some (geoCoordsUTMOK 32 false x y)
+  | "GeoCoordsUPSN", [x, y] => some (geoCoordsUTMOK 0 true x y)
+  | "GeoCoordsUPSS", [x, y] => some (geoCoordsUTMOK 0 false x y)
   | "AuxLatitudeAxes", [a, b] => some (axesOK a b)
   | "Geocentric", [a, f] => some (afOK a f)
   | "TransverseMercator", [a, f, k] | "PolarStereographic", [a, f, k] => some (afkOK a f k)
@@ -398,6 +593,122 @@ def ctorOK (cls : String) (p : List F64) : Option Bool :=
   | "EllipticFunction2", [k2, al2] => some (elliptic2OK k2 al2)
   | "EllipticFunction4", [k2, al2, kp2, alp2] => some (elliptic4OK k2 al2 kp2 alp2)
   | _, _ => none
+
+/-! ### constructors whose domain is the solvability of an equation: what must be rejected, what must be accepted
+
+`NormalGravity(a, GM, omega, J2, geometricp = false)` accepts iff `J2ToFlattening` finds a flattening with a positive finite polar
+semi-axis; `Intersect(geod)` accepts iff internal distance checks hold ("validated for -1/4 ≤ f ≤ 1/5 … sufficiently far outside the
+range … an exception [is] thrown").  The model gives a two-sided bound: `(mustReject, mustAccept)`; in between nothing is required. -/
+
+def third : F64 := F64.div one (F64.ofInt 3)
+def inRange (lo x hi : F64) : Bool := F64.le lo x && F64.le x hi
+
+/-- rejected for certain: the tests coded before the solver (`a`, `GM`, `omega`), `GM ≤ 0`, a non-finite `J2` or `J2 > 1/3 ≥ J0`
+(documented: "requires a > 0, GM > 0, J2 < 1/3 − …; a NaN is returned if these conditions do not hold") -/
+def normalGravityJ2Reject (a gm omega j2 : F64) : Bool :=
+  !(pos a && gm.isFinite && (omega * omega).isFinite && ((omega * a) * (omega * a)).isFinite) || !F64.gt gm 0 || !j2.isFinite ||
+    F64.gt j2 third
+/-- accepted for certain: earth-like `a`, `GM`, `omega` and `-10^10 ≤ J2 ≤ 0.3` -/
+def normalGravityJ2Accept (a gm omega j2 : F64) : Bool :=
+  inRange one a (F64.ofInt 100000000) && inRange (F64.ofInt 10000000000) gm (F64.ofInt 1000000000000000000) &&
+    inRange (F64.neg (F64.ofDecimal 1 3)) omega (F64.ofDecimal 1 3) && inRange (F64.neg (F64.ofInt 10000000000)) j2 (F64.ofDecimal 3 1)
+def intersectReject (a f : F64) : Bool := !abOK a f
+def intersectAccept (a f : F64) : Bool :=
+  abOK a f && inRange (F64.ofDecimal 1 3) a (F64.ofInt 1000000000000) && inRange (F64.neg (F64.ofDecimal 25 2)) f (F64.ofDecimal 2 1)
+
+/-- `Intersect::All(…, maxdist, …)` validates `maxdist` since fix fb4697b (F78): the number of tiles `ceil((maxdist + δ)/d3)²` must fit into an
+`int`, i.e. `maxdist + δ < 46340·d3` with `d3 ≈ π b ≈ 2·10⁷ m` on WGS84 (limit ≈ 9.27·10¹¹ m).  Certainly rejected: `+inf` and everything from
+`10¹³` m on; certainly accepted: a NaN (which `fmax(0, maxdist)` turns into 0 — it lists at most the closest intersection), every negative value
+(likewise 0) and everything up to `10⁸` m.  (Between `2·10⁸` and the limit the call is legal but its cost grows with `maxdist²`: not run.) -/
+def intersectAllReject (maxdist : F64) : Bool := F64.ge maxdist (F64.ofInt 10000000000000)
+def intersectAllAccept (maxdist : F64) : Bool := maxdist.isNaN || F64.le maxdist (F64.ofInt 100000000)
+
+/-- `(mustReject, mustAccept)` for the constructors without an exact predicate -/
+def ctorBounds (cls : String) (p : List F64) : Option (Bool × Bool) :=
+  match cls, p with
+  | "NormalGravityJ2", [a, gm, om, j2] => some (normalGravityJ2Reject a gm om j2, normalGravityJ2Accept a gm om j2)
+  | "Intersect", [a, f] => some (intersectReject a f, intersectAccept a f)
+  | "Intersect.All", [maxdist] => some (intersectAllReject maxdist, intersectAllAccept maxdist)
+  | _, _ => none
+
+/-- every class name the dispatchers know, with its number of parameters (the list the API-coverage obligation refers to; that it
+agrees with the dispatchers is theorem `ctor_table_dispatches`) -/
+def ctorTable : List (Key × Nat) :=
+  [(k% "Geodesic", 2), (k% "GeodesicX", 2), (k% "GeodesicExact", 2), (k% "Rhumb", 2), (k% "RhumbX", 2), (k% "Ellipsoid", 2), (k% "AuxLatitude", 2), (k% "DAuxLatitude", 2),
+   (k% "AuxLatitudeAxes", 2), (k% "Geocentric", 2), (k% "TransverseMercator", 3), (k% "PolarStereographic", 3), (k% "TransverseMercatorX", 3),
+   (k% "TransverseMercatorExact", 3), (k% "PolarStereographic.SetScale", 2), (k% "LambertConformalConic.SetScale", 2), (k% "AlbersEqualArea.SetScale", 2),
+   (k% "LambertConformalConic1", 4), (k% "LambertConformalConic2", 5), (k% "LambertConformalConic4", 7), (k% "AlbersEqualArea1", 4), (k% "AlbersEqualArea2", 5),
+   (k% "AlbersEqualArea4", 7), (k% "NormalGravity", 4), (k% "NormalGravityJ2", 4), (k% "Intersect", 2), (k% "Intersect.All", 1), (k% "EllipticFunction2", 2), (k% "EllipticFunction4", 4),
+   (k% "GeoCoordsLatLon", 2), (k% "GeoCoordsUTM32N", 2), (k% "GeoCoordsUTM32S", 2), (k% "GeoCoordsUPSN", 2), (k% "GeoCoordsUPSS", 2)] ++ totalCtors
+
+/-- does some dispatcher know the class with that many parameters? -/
+def ctorKnown (cls : String) (n : Nat) : Bool :=
+  let p := List.replicate n (0 : F64)
+  (ctorOK cls p).isSome || (ctorBounds cls p).isSome
+
+/-! ### vector-size domain of the spherical-harmonic constructors
+
+`SphericalEngine::coeff(C, S, N[, nmx, mmx])` and the `SphericalHarmonic`, `SphericalHarmonic1`, `SphericalHarmonic2` constructors built on
+it: "GeographicErr if N, nmx, mmx do not satisfy N ≥ nmx ≥ mmx ≥ −1", "GeographicErr if C or S is not big enough to hold the
+coefficients", "N ≥ N1, nmx ≥ nmx1, mmx ≥ mmx1".  Pure integer arithmetic (mathematical integers: the 32-bit evaluation of `index` in the
+code must not differ — where it overflows, UBSan reports it). -/
+
+/-- one-dimensional index of coefficient (n, m) in the column-major triangular layout of degree `N` -/
+def shIndex (N n m : Int) : Int := m * N - Int.tdiv (m * (m - 1)) 2 + n
+
+structure ShSet where
+  N : Int
+  nmx : Int
+  mmx : Int
+  csize : Int
+  ssize : Int
+
+def ShSet.sizesOK (s : ShSet) : Bool :=
+  decide (shIndex s.N s.nmx s.mmx < s.csize) && decide (shIndex s.N s.nmx s.mmx < s.ssize + (s.N + 1))
+/-- largest degree whose index arithmetic `m * N − m(m − 1)/2 + n` stays inside a 32-bit `int` (`46339² + 46339 < 2³¹`); larger degrees are
+refused by the constructors ("Degree too large", fix 3a5948e = F79; `readcoeffs` has the same bound) -/
+def shMaxDegree : Int := 46339
+
+/-- the general constructor: `N ≥ nmx ≥ mmx ≥ −1` as documented, with the coded refinement that a sum with `mmx = −1` is empty and then
+`nmx = −1` is required as well, and the degree bound -/
+def ShSet.generalOK (s : ShSet) : Bool :=
+  (decide (s.N ≥ s.nmx ∧ s.nmx ≥ s.mmx ∧ s.mmx ≥ 0) || decide (s.N ≥ -1 ∧ s.nmx = -1 ∧ s.mmx = -1)) && decide (s.N ≤ shMaxDegree) && s.sizesOK
+/-- the "full" constructor `(C, S, N)`: `nmx = mmx = N`, `−1 ≤ N ≤ 46339` -/
+def ShSet.fullOK (s : ShSet) : Bool :=
+  decide (s.N ≥ -1) && decide (s.N ≤ shMaxDegree) && ({ s with nmx := s.N, mmx := s.N } : ShSet).sizesOK
+def ShSet.ok (full : Bool) (s : ShSet) : Bool := if full then s.fullOK else s.generalOK
+
+/-- the smallest vectors the documented layout needs (`Csize`, `Ssize` of the header for `nmx = N`, `mmx = M`) -/
+def ShSet.needC (s : ShSet) : Int := if s.nmx < 0 then 0 else shIndex s.N s.nmx s.mmx + 1
+def ShSet.needS (s : ShSet) : Int := if s.nmx < 0 then 0 else max 0 (shIndex s.N s.nmx s.mmx - s.N)
+
+/-- the secondary sets of SphericalHarmonic1 / SphericalHarmonic2 may not exceed the primary one -/
+def shSubordinate (full : Bool) (p q : ShSet) : Bool :=
+  if full then decide (q.N ≤ p.N) else decide (q.nmx ≤ p.nmx) && decide (q.mmx ≤ p.mmx)
+
+/-- accept / reject of the constructor `form` (`coeff3 coeff5 sh3 sh5 sh1_3 sh1_5 sh2_3 sh2_5`) on the given coefficient sets.
+As coded: the one-set tests of every set and the cross tests; note that the "5" forms of SphericalHarmonic1/2 do *not* compare
+`N1` with `N` -/
+def shCtorOK (form : String) (sets : List ShSet) : Option Bool :=
+  let full := form.endsWith "3"
+  let n := if form.startsWith "sh2_" then 3 else if form.startsWith "sh1_" then 2 else 1
+  if !(["coeff3", "coeff5", "sh3", "sh5", "sh1_3", "sh1_5", "sh2_3", "sh2_5"].contains form) || sets.length != n then none else
+  match sets with
+  | p :: rest => some (rest.all (shSubordinate full p) && (p :: rest).all (ShSet.ok full))
+  | [] => none
+
+/-! ### the other streams of `harness/C13.cpp` (names as used in the protocol) -/
+
+/-- text parsers driven with seeds and mutations by `c13_parse` / `c13_rev` / `c13_fwd` -/
+def parsers : List Key :=
+  [k% "DMS.Decode", k% "DMS.DecodeLatLon", k% "DMS.DecodeAngle", k% "DMS.DecodeAzimuth", k% "GeoCoords", k% "GeoCoords.Reset", k% "Utility.val", k% "Utility.vali",
+   k% "Utility.valf", k% "Utility.vall", k% "Utility.valb", k% "Utility.fract", k% "Utility.nummatch", k% "Utility.date", k% "Utility.fractionalyear", k% "Utility.ParseLine",
+   k% "Utility.ParseLine4", k% "Utility.trim", k% "Utility.lookup", k% "Utility.lookupc", k% "Utility.readarray", k% "MGRS.Decode",
+   k% "rev.geohash", k% "rev.gars", k% "rev.georef", k% "rev.osgb", k% "rev.mgrs", k% "rev.zone"]
+/-- readers of data files / streams driven with truncated and corrupted images -/
+def fileReaders : List Key := [k% "geoidfile", k% "magfile", k% "gravfile", k% "nnfile", k% "nnload"]
+/-- vector-size domains (`c13_shctor`) -/
+def sizeForms : List Key := [k% "coeff3", k% "coeff5", k% "sh3", k% "sh5", k% "sh1_3", k% "sh1_5", k% "sh2_3", k% "sh2_5"]
 
 /-- Geoid PGM header (composed from fields): magic, offset and scale present, scale > 0, maxval 65535, even width ≥ 2,
 odd height ≥ 3, and exactly `2·w·h` data bytes -/
